@@ -240,7 +240,10 @@ def make_compose_stubs():
                 for d in self._chain:      # forecasts live in the representation of the training data
                     v = 10 * v + d
                 vals.append(float(v))
-            return pd.Series(vals, index=idx)
+            y_pred = pd.Series(vals, index=idx)
+            if return_pred_int:       # intervals that name the coverage level they were asked for
+                return y_pred, pd.DataFrame({"lower": y_pred - 1000.0 * alpha, "upper": y_pred + 1000.0 * alpha})
+            return y_pred
 
     class Tag(_SeriesToSeriesTransformer):
         _tags = {"transform-returns-same-time-index": True, "univariate-only": True}
